@@ -44,6 +44,10 @@ structure Cfg where
 structure Theta where
   hardened : Bool
   noise : Option Nat
+  /-- the tensor is still attached to the autograd graph of the architectural parameters `alpha`
+  (a cost computed from it is a differentiable function of `alpha`: the regularisation gradient of
+  `loss = task + strength * cost` exists) -/
+  live : Bool
   deriving DecidableEq, Repr, Inhabited
 
 /-- cost specification slots: a single `CostSpec` or a dictionary of named ones, two of each -/
@@ -76,6 +80,9 @@ structure State where
 
 inductive Op where
   | exportNet | exportNoBn | summary | cost | getCost | getCostB | setSpec (s : Spec) | forward
+  /-- the rest of a search step after a forward: `loss = task(y) + strength * cost`, `backward()`,
+  optimizer step -/
+  | optStep
   deriving DecidableEq, Repr, Inhabited
 
 /-- what a call returns, abstractly: everything the returned value can depend on -/
@@ -100,7 +107,7 @@ inductive Out where
 def Op.isObserver : Op → Bool
   | .exportNet => true | .exportNoBn => true | .summary => true | .cost => true | .getCost => true
   | .getCostB => true
-  | .setSpec _ => false | .forward => false
+  | .setSpec _ => false | .forward => false | .optStep => false
 
 /-- the coefficients a forward samples in mode `training` at RNG position `rng` -/
 def sample (c : Cfg) (training : Bool) (rng : Nat) (old : Theta) : Theta :=
@@ -108,10 +115,11 @@ def sample (c : Cfg) (training : Bool) (rng : Nat) (old : Theta) : Theta :=
   | .pit => old
   | .mps =>
     if c.disable then old
-    else if c.gumbel && training then ⟨c.hard, some rng⟩
-    else ⟨c.hard || !training, none⟩        -- eval mode hardens (STE arg-max)
+    else if c.gumbel && training then ⟨c.hard, some rng, true⟩
+    else ⟨c.hard || !training, none, true⟩        -- eval mode hardens (STE arg-max)
   | .sn =>
-    if c.gumbel && training then ⟨c.hard, some rng⟩ else ⟨c.hard, none⟩
+    if c.gumbel && training then ⟨c.hard, some rng, true⟩
+    else ⟨c.hard, none, !c.hard⟩     -- a plain `one_hot(argmax)` has no gradient (no straight-through estimator)
 
 /-- does sampling in this mode draw from the RNG -/
 def sampleDraws (c : Cfg) (training : Bool) : Bool :=
@@ -160,6 +168,15 @@ def forwardStep (c : Cfg) (s : State) : State × Out :=
                      pers := if c.bnTrain && s.bntrain then s.pers + 1 else s.pers }
   (s', .outputs th s.arch s.pers s.strain s.bntrain s.droptrain (if draws then some s.rng else none))
 
+/-- is the cost a differentiable function of the architectural parameters right now: PIT derives its
+masks from the parameters at every evaluation; MPS and SuperNet read the stored sampled coefficients -/
+def costLive (c : Cfg) (s : State) : Bool := c.method == .pit || s.theta.live
+
+/-- backward + optimizer step: the new parameters are a function of the old ones and of whether the
+regularisation term reached the architectural parameters -/
+def optStepStep (c : Cfg) (s : State) : State × Out :=
+  ({ s with arch := 2 * s.arch + (if costLive c s then 2 else 1) }, .unit)
+
 /-- the code as it is now -/
 def step (c : Cfg) (s : State) : Op → State × Out
   | .exportNet => exportStep c s
@@ -170,6 +187,7 @@ def step (c : Cfg) (s : State) : Op → State × Out
   | .getCostB => costStep c s true s.spec.fnB
   | .setSpec k => ({ s with spec := k }, .unit)
   | .forward => forwardStep c s
+  | .optStep => optStepStep c s
 
 def run (c : Cfg) (s : State) (ops : List Op) : State := ops.foldl (fun st op => (step c st op).1) s
 
@@ -182,7 +200,8 @@ def trace (c : Cfg) : State → List Op → List Out
 
 def exportStepPinned (c : Cfg) (s : State) : State × Out :=
   -- `self.seed.eval()` is never undone and the shape-propagation forward leaves its eval-mode sample
-  ({ s with strain := false, bntrain := false, droptrain := false, theta := sample c false s.rng s.theta,
+  ({ s with strain := false, bntrain := false, droptrain := false,
+            theta := { sample c false s.rng s.theta with live := c.method != .mps },
             rng := if exportDraws c then s.rng + 1 else s.rng }, .net s.arch (exportedStats c s))
 
 def summaryStepPinned (c : Cfg) (s : State) : State × Out :=
@@ -210,6 +229,7 @@ structure ObsState where
   droptrain : Bool
   hardened : Bool
   noisy : Bool
+  live : Bool
   arch : Nat
   pers : Nat
   spec : Spec
@@ -217,7 +237,7 @@ structure ObsState where
   deriving DecidableEq, Repr
 
 def obsState (s : State) : ObsState :=
-  ⟨s.wtrain, s.strain, s.bntrain, s.droptrain, s.theta.hardened, s.theta.noise.isSome, s.arch, s.pers, s.spec, s.flags⟩
+  ⟨s.wtrain, s.strain, s.bntrain, s.droptrain, s.theta.hardened, s.theta.noise.isSome, s.theta.live, s.arch, s.pers, s.spec, s.flags⟩
 
 /-- the same, keeping the identity of the noise (exact sampled coefficients) -/
 def obsStateExact (s : State) : Bool × Bool × Bool × Bool × Theta × Nat × Nat × Spec × Nat :=
